@@ -2,3 +2,4 @@ pub mod prog;
 pub mod lang;
 pub mod body;
 pub mod full;
+pub mod files;
